@@ -124,6 +124,15 @@ class Hostile(Layout):
         self._ctx = (kind, nxt.get("stmt") or "?", what)
         if kind == "none":
             return ""
+        if kind == "sp" and nxt.get("stmt") != "import" and cls in ("punct", "op", "str") and str(text)[:1] in tuple('#$%("<>-!*') and rng.random() < 0.12:
+            # a blank that the grammar does not need (`lda#1`, `.text petscii"x"`, `.if(1)`): nothing, or only a comment
+            out = ""
+            if self.comments and rng.random() < 0.3:
+                out = self._block_comment(False)
+                self._note(kind, "comment-instead-of-blank")
+            else:
+                self._note(kind, "no-blank")
+            return out
         if kind in ("sp", "opt"):
             out = self._blanks(1 if kind == "sp" else 0)
             if not out and kind == "opt" and nxt.get("want_space") and rng.random() < 0.7:
